@@ -26,7 +26,7 @@ def ctx():
 
 
 def is_sym(v):
-    return isinstance(v, (SymInt, SymBool, SymBytes))
+    return isinstance(v, (SymInt, SymBool, SymBytes)) or getattr(v, "__pyvc_symbolic_key__", False)
 
 
 def zint(v):
